@@ -32,7 +32,7 @@ for sd in sorted(os.listdir(root)):
     mp = os.path.join(d, 'meta.json')
     if os.path.exists(mp):
         m = json.load(open(mp))
-        first, rnd = m.get('status_at_first_run', ''), str(m.get('round', ''))
+        first, rnd = m.get('status_at_first_run', ''), str(m.get('round', 1))
     notes = open(os.path.join(d, 'notes.md'), errors='replace').read().strip().split('\n')
     title = next((l.strip('# ').strip() for l in notes if l.strip()), '')
     title = re.sub(r'^(C\d\d[ /-]*)?(change )?[AB][ :—–-]*', '', title, flags=re.I)[:105].replace('|', '/')
